@@ -274,8 +274,10 @@ def gen(stratum, rng, tier):
             c = [-v for v in c]
         configs = [{"heuristics": False}, {}]
     elif stratum == "unbounded":
-        # no bound rows: the relaxation may be unbounded
-        configs += [{"heuristics": False}]
+        # no bound rows: the relaxation may be unbounded.  With an infinite integer domain branch and bound only
+        # stops at max_nodes (default 100 000 nodes = minutes of honest work), so an explicit small node limit is
+        # used here; every status is still judged (a limit status carries no claim)
+        configs = [{"max_nodes": 300}, {"heuristics": False, "max_nodes": 300}]
     else:
         raise ValueError(stratum)
     return {"c": c, "A": A, "b": b, "ints": ints, "minimize": minimize, "configs": configs}
@@ -371,7 +373,7 @@ def run(case, obs):
         st = res.status.name
         obs.outcome(st)
         obs.event("milp.judged")
-        small_limit = cfg.get("max_nodes", 10**9) <= 50
+        small_limit = cfg.get("max_nodes", 10**9) <= 1000
         if st in ("OPTIMAL", "FEASIBLE"):
             ok = _feasible_point(case, res.solution, "solution", obs)
             if ok:
